@@ -224,7 +224,13 @@ pub fn judge_header(x: &Vec<u8>, st: &mut Stats) -> Verdict {
     let h = match &got {
         Ok(Ok(h)) => h,
         _ => {
-            st.discard();
+            // a candidate the reference accepts but the parser rejects is C02's to report (counted as discarded);
+            // a near-miss that both reject is simply not a header
+            if matches!(crate::oracle::v2::v2_ref(x), crate::oracle::v2::V2Ref::Accept { .. }) {
+                st.discard();
+            } else {
+                st.class("near-miss-not-accepted");
+            }
             return Ok(());
         }
     };
